@@ -8,6 +8,7 @@ CONSTANTS
   MaxFaultPos = 3
   OptSet <- OptsAll
   Colls = {"default", "custom"}
+  CancelModes = {}
   Depth = 2
   ExcludedConsulted = TRUE
   Mut = "none"
